@@ -204,8 +204,9 @@ where
         for h in hs {
             match h.join() {
                 Ok(a) => accs.push(a),
-                Err(_) => {
-                    crate::out::line("MACHINERY-ERROR: worker thread panicked outside a guarded library call");
+                Err(e) => {
+                    let msg = e.downcast_ref::<String>().cloned().or_else(|| e.downcast_ref::<&str>().map(|s| s.to_string())).unwrap_or_default();
+                    crate::out::line(&format!("MACHINERY-ERROR: worker thread panicked outside a guarded library call: {}", msg));
                     std::process::exit(2);
                 }
             }
